@@ -23,7 +23,7 @@ KEY_CVODE_LOW = "C12:cvode-low-order-global-error"
 
 # ----------------------------------------------------------------------------------------- T-gen
 
-GEN_STATE = {"step_ok": True, "tableau_ok": True, "restart_ok": True, "last_good_source": None}
+GEN_STATE = {"step_ok": True, "tableau_ok": True, "restart_ok": True, "transport_ok": True, "last_good_source": None}
 KEY_RESTART_STATE = "C12:cvode-restart-state-from-failed-attempt"
 
 
@@ -34,7 +34,8 @@ def gen():
     gdir = os.path.join(vlib.COQ, "Gen")
     errs = []
     for fname, fn, flag in (("Gen_C12_Tableau.v", c12_gen.gen_tableau, "tableau_ok"), ("Gen_C12_Step.v", c12_gen.gen_step, "step_ok"),
-                            ("Gen_C12_Restart.v", c12_gen.gen_restart, "restart_ok")):
+                            ("Gen_C12_Restart.v", c12_gen.gen_restart, "restart_ok"),
+                            ("Gen_C12_Transport.v", c12_gen.gen_transport_time, "transport_ok")):
         p = os.path.join(gdir, fname)
         try:
             vlib.write_if_changed(p, fn(vlib.REPO))
